@@ -691,7 +691,8 @@ def run(pid, tier, seed, res, p_sub=None, p_flag=None, only=None):
             continue
         if kind == "bind":
             if v != m["expect"]:
-                for p in ["C01", "C15"] + (["C10"] if has_flags(prog) else []) + (["C20"] if has_subs(prog) else []):
+                # (C02: what a node reading a parameter receives IS this map's entry)
+                for p in ["C01", "C15", "C02"] + (["C10"] if has_flags(prog) else []) + (["C20"] if has_subs(prog) else []):
                     res.hit(p, "divergence", "K-bind: the results map handed to the scheduler differs from Args.bind (copy of the DAG-level map with the i-th argument overriding the i-th input): ids %s, implementation %s, model %s" % (m["show"], m["expect"][:40], v[:40]),
                             dict(base, kind="divergence"))
             continue
